@@ -193,14 +193,16 @@ let () =
             if om <> impl then begin
               incr mm_model; dead := true;
               report "modelK" (Printf.sprintf "MISMATCH case=%d op=%d kind=model prop=C02 key=pubsub:model-canary line=[%s] after=[%s] model=%s impl=%s\n" !case_no !op_no line !last_line om impl) end
-            else if os <> impl && not !case_canary_bad then begin
-              incr mm_spec; case_canary_bad := true;
+            else if os <> impl then begin
               (* which kind of sample changed: one whose subscriber is gone (F2) or not *)
               let changed = List.filter (fun x -> List.assoc x.x_id (canary w0) <> x.x_expect) w0.w_samples in
               let orphan = changed <> [] && List.for_all (fun x -> not (sub_live w0 x.x_sub)) changed in
               bump extra (if orphan then "canary_changed_subscriber_dropped" else "canary_changed_subscriber_registered");
+              if orphan && !case_canary_bad then () else begin
+              if orphan then case_canary_bad := true;
+              incr mm_spec;
               let key = if orphan then "pubsub:sample-outlives-subscriber-chunk-reused" else "pubsub:held-sample-content-changed" in
-              report ("specK" ^ key) (Printf.sprintf "MISMATCH case=%d op=%d kind=spec prop=C02 key=%s line=[%s] after=[%s] spec=%s impl=%s\n" !case_no !op_no key line !last_line os impl) end
+              report ("specK" ^ key) (Printf.sprintf "MISMATCH case=%d op=%d kind=spec prop=C02 key=%s line=[%s] after=[%s] spec=%s impl=%s\n" !case_no !op_no key line !last_line os impl) end end
         end
       | [] -> ()
       | _ -> failwith ("bad line: " ^ line)
